@@ -3,6 +3,7 @@ package server
 import (
 	"bytes"
 	"encoding/json"
+	"math"
 	"strconv"
 	"strings"
 	"time"
@@ -119,16 +120,27 @@ func isJSONNumber(data string) bool {
 	return i == len(data)
 }
 
+// appendJSONFloat appends a coordinate or distance. JSON has no NaN or
+// Infinity: such a value is shown as the string the RESP reply shows.
+func appendJSONFloat(dst []byte, f float64) []byte {
+	if math.IsNaN(f) || math.IsInf(f, 0) {
+		dst = append(dst, '"')
+		dst = strconv.AppendFloat(dst, f, 'f', -1, 64)
+		return append(dst, '"')
+	}
+	return strconv.AppendFloat(dst, f, 'f', -1, 64)
+}
+
 func appendJSONSimpleBounds(dst []byte, o geojson.Object) []byte {
 	bbox := o.Rect()
 	dst = append(dst, `{"sw":{"lat":`...)
-	dst = strconv.AppendFloat(dst, bbox.Min.Y, 'f', -1, 64)
+	dst = appendJSONFloat(dst, bbox.Min.Y)
 	dst = append(dst, `,"lon":`...)
-	dst = strconv.AppendFloat(dst, bbox.Min.X, 'f', -1, 64)
+	dst = appendJSONFloat(dst, bbox.Min.X)
 	dst = append(dst, `},"ne":{"lat":`...)
-	dst = strconv.AppendFloat(dst, bbox.Max.Y, 'f', -1, 64)
+	dst = appendJSONFloat(dst, bbox.Max.Y)
 	dst = append(dst, `,"lon":`...)
-	dst = strconv.AppendFloat(dst, bbox.Max.X, 'f', -1, 64)
+	dst = appendJSONFloat(dst, bbox.Max.X)
 	dst = append(dst, `}}`...)
 	return dst
 }
@@ -137,12 +149,12 @@ func appendJSONSimplePoint(dst []byte, o geojson.Object) []byte {
 	point := o.Center()
 	z := extractZCoordinate(o)
 	dst = append(dst, `{"lat":`...)
-	dst = strconv.AppendFloat(dst, point.Y, 'f', -1, 64)
+	dst = appendJSONFloat(dst, point.Y)
 	dst = append(dst, `,"lon":`...)
-	dst = strconv.AppendFloat(dst, point.X, 'f', -1, 64)
+	dst = appendJSONFloat(dst, point.X)
 	if z != 0 {
 		dst = append(dst, `,"z":`...)
-		dst = strconv.AppendFloat(dst, z, 'f', -1, 64)
+		dst = appendJSONFloat(dst, z)
 	}
 	dst = append(dst, '}')
 	return dst
